@@ -357,6 +357,9 @@ class Interp:
         return {"collected": collected}
 
     def op_gc(self, th, o):
+        # multiprocessing keeps started Process objects in a module-level set until the next
+        # active_children()/start(): let it forget the finished ones, then collect.
+        sys.modules["multiprocessing.process"].active_children()
         rt.safe_collect()
         return {}
 
@@ -511,6 +514,8 @@ class Interp:
         cur = rt.RT.sched.cur()
         for i, o in enumerate(ops):
             name = o["op"]
+            if cur.killed or not cur.proc.alive:
+                raise sk.SimKilled()      # the process is gone: nothing it "observes" from here on is real
             ev = self.obs.event(thread=th, i=i, op=name, phase="call", o=o)
             cur.api = (name, o.get("ex"), o.get("f"), o.get("context"))
             try:
